@@ -203,6 +203,154 @@ func init() {
 			}(t)
 		}
 		wg.Wait()
+		// deterministic interleavings on FRESHLY parsed copies of the signed image (the free-running goroutines above
+		// meet the objects after every method has been called once, and overlap where the machine's timing puts
+		// them): the image is parsed through a caller-supplied io.ReaderAt that makes the goroutines take turns at
+		// read granularity (sched.go), so the first call ever made on the object is parked in the middle - inside
+		// its first read, or a later one - while another goroutine's call runs on the same object. Every ordered
+		// pair of the image's methods, under three kinds of schedule; and triples. Each call must return what the
+		// same call returns alone on a copy parsed from the same bytes.
+		if nsched := atoi(a["nsched"]); nsched > 0 {
+			signedBytes := append([]byte{}, o.img.Bytes()...)
+			imgMethods := []string{"img.Hash", "img.Bytes", "img.Open", "img.Signatures", "img.Verify0", "img.Verify1"}
+			withImg := func(q *authenticode.PECOFFBinary) *pureObjs { o2 := *o; o2.img, o2.keep = q, nil; return &o2 }
+			alone := map[string]string{}
+			if q, err := authenticode.Parse(bytes.NewReader(signedBytes)); err != nil {
+				diffs = append(diffs, "the signed image does not re-parse: "+err.Error())
+				nsched = 0
+			} else {
+				// "alone": the call as the first and only call on a copy of its own; the same copy `q`, asked for
+				// everything in turn, must give the same answers (no method changes what a later one sees)
+				for _, m := range imgMethods {
+					q1, err := authenticode.Parse(bytes.NewReader(signedBytes))
+					if err != nil {
+						diffs = append(diffs, "the signed image does not re-parse: "+err.Error())
+						continue
+					}
+					alone[m] = withImg(q1).call(m)
+				}
+				for _, m := range imgMethods {
+					if g := withImg(q).call(m); g != alone[m] {
+						diffs = append(diffs, fmt.Sprintf("order: %s on a parsed image that other read-only methods have been called on before: %s != %s as the first call on a fresh copy", m, g, alone[m]))
+					}
+				}
+			}
+			sch := newTurnSched()
+			round := 0
+			runRound := func(quanta []int, ms ...string) {
+				if round++; round > nsched || len(diffs) >= 5 {
+					return
+				}
+				q, err := authenticode.Parse(turnReader{bytes.NewReader(signedBytes), sch})
+				if err != nil {
+					diffs = append(diffs, "the signed image does not re-parse: "+err.Error())
+					return
+				}
+				o2 := withImg(q)
+				got := make([]string, len(ms))
+				calls := make([]func(), len(ms))
+				for i := range ms {
+					i := i
+					calls[i] = func() {
+						if pan, msg := safely(func() { got[i] = o2.call(ms[i]) }); pan {
+							got[i] = "panic: " + msg
+						}
+					}
+				}
+				_, free := sch.run(quanta, calls...)
+				for i, m := range ms {
+					if got[i] != alone[m] {
+						diffs = append(diffs, fmt.Sprintf("scheduled: on a freshly parsed image the calls %v overlap (turns of %v reads, abandoned=%v); goroutine %d %s: %s != the result of the call alone %s", ms, quanta, free, i, m, got[i], alone[m]))
+					}
+				}
+				for _, m := range imgMethods { // and the object answers as before afterwards
+					if g := o2.call(m); g != alone[m] {
+						diffs = append(diffs, fmt.Sprintf("scheduled: after the overlapping calls %v (turns of %v reads) %s: %s != %s", ms, quanta, m, g, alone[m]))
+					}
+				}
+			}
+			for _, m1 := range imgMethods {
+				for _, m2 := range imgMethods {
+					runRound([]int{0}, m1, m2)          // a hand-over at every read
+					runRound([]int{0, 1 << 20}, m1, m2) // the first call is held in its first read until the second has returned
+					runRound([]int{rng.Intn(3), rng.Intn(4), rng.Intn(4), rng.Intn(4), rng.Intn(4)}, m1, m2)
+				}
+			}
+			for i := 0; i < 12; i++ {
+				runRound([]int{rng.Intn(2), rng.Intn(3), rng.Intn(3), rng.Intn(4)}, imgMethods[rng.Intn(6)], imgMethods[rng.Intn(6)], imgMethods[rng.Intn(6)])
+			}
+		}
+		// what a call hands to its caller - a returned slice, a destination buffer it has written to - is the
+		// caller's from then on: the caller overwrites it, resets and reuses the buffer, appends to it. The object
+		// must answer as before, and two destinations must not share memory.
+		if a["own"] == "1" {
+			scribble := func(b []byte) {
+				for i := range b {
+					b[i] ^= 0x5a
+				}
+			}
+			own := func(what string, b []byte, ms ...string) {
+				scribble(b)
+				for _, m := range ms {
+					if got := o.call(m); got != ref[m] {
+						diffs = append(diffs, fmt.Sprintf("owned: after the caller overwrote the %d bytes returned by %s, %s: %s != first result %s", len(b), what, m, got, ref[m]))
+					}
+				}
+			}
+			own("img.Hash", o.img.Hash(crypto.SHA256), "img.Hash", "img.Verify0")
+			own("img.Bytes", o.img.Bytes(), "img.Bytes", "img.Open", "img.Hash", "img.Signatures", "img.Verify0")
+			if ws, err := o.img.Signatures(); err == nil {
+				for _, w := range ws {
+					scribble(w.Certificate)
+				}
+				own("img.Signatures (the certificate data of every entry)", nil, "img.Signatures", "img.Bytes", "img.Verify0")
+			}
+			own("db.Bytes", o.db.Bytes(), "db.Bytes", "db.Marshal", "db.BytesExists0", "db.BytesExistsX509", "db.BytesExistsLast")
+			own("upd.Bytes", o.upd.Bytes(), "upd.Bytes", "upd.Marshal")
+			type marshal struct {
+				name string
+				f    func(*bytes.Buffer)
+			}
+			for _, mf := range []marshal{{"upd.Marshal", o.upd.Marshal}, {"db.Marshal", o.db.Marshal}, {"auth.Marshal", o.auth.Marshal}} {
+				note := func(what string, got, want []byte) {
+					if !bytes.Equal(got, want) {
+						diffs = append(diffs, fmt.Sprintf("owned: %s %s: %s (%d bytes) != %s (%d bytes)", mf.name, what, h8(got), len(got), h8(want), len(want)))
+					}
+				}
+				var d bytes.Buffer
+				mf.f(&d) // into an EMPTY destination
+				first := append([]byte{}, d.Bytes()...)
+				if h8(first) != ref[mf.name] {
+					diffs = append(diffs, fmt.Sprintf("owned: %s into an empty destination: %s != first result %s", mf.name, h8(first), ref[mf.name]))
+				}
+				// the destination is recycled for something else
+				d.Reset()
+				d.Write(bytes.Repeat([]byte{0xC3}, len(first)))
+				d.Write(bytes.Repeat([]byte{0x3C}, 64))
+				var e bytes.Buffer
+				mf.f(&e)
+				note("after the destination of an earlier call was reset and reused", e.Bytes(), first)
+				// behind existing content
+				var g bytes.Buffer
+				g.WriteString("hdr")
+				mf.f(&g)
+				note("into a destination that already holds 3 bytes", g.Bytes(), append([]byte("hdr"), first...))
+				// two destinations, each extended by its owner
+				var x, y bytes.Buffer
+				mf.f(&x)
+				mf.f(&y)
+				x.WriteString("AAAAAAAA")
+				y.WriteString("BBBBBBBB")
+				note("first of two destinations, each extended by its owner afterwards", x.Bytes(), append(append([]byte{}, first...), "AAAAAAAA"...))
+				note("second of two destinations, each extended by its owner afterwards", y.Bytes(), append(append([]byte{}, first...), "BBBBBBBB"...))
+				// a destination's bytes are overwritten in place
+				scribble(x.Bytes())
+				scribble(y.Bytes())
+				var z bytes.Buffer
+				mf.f(&z)
+				note("after the caller overwrote the bytes of earlier destinations", z.Bytes(), first)
+			}
+		}
 		// and once more sequentially afterwards: nothing was consumed
 		for _, m := range pureMethods {
 			if got := o.call(m); got != ref[m] {
@@ -253,7 +401,7 @@ func c19Eval(c *Ctx, cs Case) {
 		img = buildPE(s).img
 	}
 	res := w.Do("pure.run", map[string]string{"verif": c.VerifDir, "img": hx(img), "seed": fmt.Sprint(cs.I("seed2")), "nseq": fmt.Sprint(cs.I("nseq")),
-		"goroutines": fmt.Sprint(cs.I("goroutines")), "ncalls": fmt.Sprint(cs.I("ncalls")), "reparse": fmt.Sprint(cs.I("reparse")), "decoded": fmt.Sprint(cs.I("decoded")), "dbentries": fmt.Sprint(cs.I("dbentries"))}, 120*time.Second)
+		"goroutines": fmt.Sprint(cs.I("goroutines")), "ncalls": fmt.Sprint(cs.I("ncalls")), "reparse": fmt.Sprint(cs.I("reparse")), "decoded": fmt.Sprint(cs.I("decoded")), "dbentries": fmt.Sprint(cs.I("dbentries")), "nsched": fmt.Sprint(cs.I("nsched")), "own": fmt.Sprint(cs.I("own"))}, 120*time.Second)
 	c.Count(cs.Key(), true, fmt.Sprintf("pure/g%d/db%d/%s", cs.I("goroutines"), 2+cs.I("dbentries"), res.Class))
 	c.Sample(Case{"goroutines": cs.I("goroutines"), "ncalls": cs.I("ncalls"), "nseq": cs.I("nseq"), "result": clip(res.Out)})
 	fail := func(what string) {
@@ -286,14 +434,16 @@ func c19Gen(c *Ctx) {
 		cs["reparse"] = int64(i % 2)
 		cs["decoded"] = int64((i / 2) % 2)
 		cs["dbentries"] = int64([]int{0, 62, 300, 63, 1000, 126}[i%6]) // SHA-256 list of 2, 64, 302, 65, 1002, 128 entries
+		cs["nsched"] = int64(c.P(120, 120))                            // scheduled rounds on freshly parsed copies: 36 pairs x 3 kinds + 12 triples
+		cs["own"] = int64(1)
 		c19Eval(c, cs)
 	}
-	c19Eval(c, Case{"op": "pure", "path": "authenticode/testdata/test.pecoff", "seed2": int64(7), "nseq": int64(40), "goroutines": int64(8), "ncalls": int64(map[bool]int{false: 25, true: 100}[c.Thorough]), "reparse": int64(0), "decoded": int64(1), "dbentries": int64(198)})
+	c19Eval(c, Case{"op": "pure", "path": "authenticode/testdata/test.pecoff", "seed2": int64(7), "nseq": int64(40), "goroutines": int64(8), "ncalls": int64(map[bool]int{false: 25, true: 100}[c.Thorough]), "reparse": int64(0), "decoded": int64(1), "dbentries": int64(198), "nsched": int64(120), "own": int64(1)})
 }
 
 func init() {
 	register("C19", &PropDef{
-		Rule:   "for each of several signed images (generated layouts and a repository binary; parsed-and-signed in place or re-parsed from bytes), a database (built through Append, or decoded from an independently encoded stream; its SHA-256 list holds 2, 64, 65, 128, 200, 302 or 1002 hashes in no particular order, followed by a certificate list) and a signed-update value: the 19 read-only methods (image: Hash, Bytes, Open, Signatures, Verify x2; database: Bytes, Marshal - both BEFORE any query -, BytesExists x4 incl. a type whose list is not the first and the last entry of the long list, SigDataExists, Exists; signed update: Marshal, Bytes; its decoded descriptor: Marshal, Verify x2) are called once for reference, then 40 times sequentially in random order, then from 2/4/8/16 goroutines (25..100 random calls each) on the SAME objects, then once more each; every result must equal the first, and the byte slices returned by the first Hash / Bytes / Marshal calls, held throughout, must still read the same at the end. The worker is the -race build, so any data race aborts the run. Every case is non-trivial; distinct = distinct (image, schedule seed, goroutine count).",
+		Rule:   "for each of several signed images (generated layouts and a repository binary; parsed-and-signed in place or re-parsed from bytes), a database (built through Append, or decoded from an independently encoded stream; its SHA-256 list holds 2, 64, 65, 128, 200, 302 or 1002 hashes in no particular order, followed by a certificate list) and a signed-update value: the 19 read-only methods (image: Hash, Bytes, Open, Signatures, Verify x2; database: Bytes, Marshal - both BEFORE any query -, BytesExists x4 incl. a type whose list is not the first and the last entry of the long list, SigDataExists, Exists; signed update: Marshal, Bytes; its decoded descriptor: Marshal, Verify x2) are called once for reference, then 40 times sequentially in random order, then from 2/4/8/16 goroutines (25..100 random calls each) on the SAME objects; then, on FRESHLY parsed copies of the signed image (one copy per round, so that the overlapping calls are the first ever made on the object), every ordered pair of the six image methods and 12 random triples are run by two / three goroutines under a deterministic interleaving: the copy is parsed through a caller-supplied io.ReaderAt that makes the goroutines take turns at read granularity (sched.go) - a hand-over at every read; the first call held inside its first read until the second has returned; random turns of 0..3 reads - and every call, and every method once more after the round, must return what the call returns alone on a copy parsed from the same bytes (120 rounds per image); then the caller treats what it was handed as its own: it overwrites the slices returned by Hash, Bytes (image, database, signed update) and the certificate data of the entries listed by Signatures, and for each Marshal (signed update, database, descriptor) it marshals into an empty buffer, resets that buffer and reuses it for other data, marshals behind 3 bytes already in the destination, marshals into two buffers and lets each owner append 8 bytes of its own, and overwrites those destinations in place - after each of which the methods of the object must answer as at first, each destination must hold exactly (its old content,) the first encoding (and its owner's trailer); then every method once more; every result must equal the first, and the byte slices returned by the first Hash / Bytes / Marshal calls, held throughout, must still read the same at the end. The worker is the -race build, so any data race aborts the run. Every case is non-trivial; distinct = distinct (image, schedule seed, goroutine count).",
 		Assume: []string{"data-race freedom under the Go memory model is a runtime fact: the race detector observes the schedules that happen to occur in the sampled runs"},
 		Eval:   c19Eval, Gen: c19Gen,
 	})
